@@ -1,10 +1,9 @@
-(* C11 — routing table.  Property theorems only; proofs in TableProofs.v.
-   Proved here: the removal, cleanup and added/not-added clauses, for every table content.
-   The ordering clauses (sortedness under every operation sequence, exact best-first lookups,
-   at most three non-peer routes per destination, the per-prefix bounds) are evaluated on every
-   step of every real operation sequence through Table.table_inv_b and the lookup comparison
-   in TableCorr.run_steps — validated, and proved where TableOrder.v says so. *)
-From Verif Require Import Prelude SwitchLabel Table TableProofs.
+(* C11 — routing table.  Property theorems only; proofs in TableProofs.v and TableSorted.v.
+   Proved: the removal, cleanup and added/not-added clauses for every table content; sortedness
+   under every operation sequence; exact best-first lookups on every reachable table.
+   Still only validated (evaluated on every step of every real operation sequence through
+   Table.table_inv_b): at most three non-peer routes per destination and the per-prefix bounds. *)
+From Verif Require Import Prelude SwitchLabel Table TableProofs TableSorted.
 
 (* 'added' means the route is now present ... *)
 Theorem C11_added_present : forall cfg now t e0 t',
@@ -51,3 +50,41 @@ Theorem C11_clean_keeps_peers : forall cfg self now t e,
   In e t -> e_source e = src_peer -> In e (clean cfg self now t).
 Proof. exact clean_keeps_peers. Qed.
 Print Assumptions C11_clean_keeps_peers.
+
+(* ---------- sortedness and lookups (TableSorted.v) ---------- *)
+(* After ANY sequence of additions (paths of at most 255 hops: what BuildBlocks can carry and far
+   more than an announcement's 101), next-hop removals, disconnect removals and cleanups, from the
+   empty table: the table is sorted by (destination, hops, delay, relays) and every stored entry
+   carries the hop count of its own path. *)
+Theorem C11_reachable_sorted : forall cfg self ops,
+  Forall (fun o => match o with TAdd _ e => (length (e_path e) <= 255)%nat | _ => True end) ops ->
+  sorted (fold_left (tstep cfg self) ops []) /\ tpwf (fold_left (tstep cfg self) ops []).
+Proof. exact reachable_sorted. Qed.
+Print Assumptions C11_reachable_sorted.
+
+(* On such a table a lookup for an address that has at least one route returns a route to exactly
+   that address, flagged as destination, and it is the first in the table order among all routes
+   to that address: fewest hops, then lowest delay (a direct-peer route has one hop and sorts
+   first). *)
+Theorem C11_lookup_exact_best : forall t d,
+  sorted t -> tpwf t -> (exists x, In x t /\ e_dst x = d) ->
+  exists e, lookup_nearest t d = Some (e, true) /\ In e t /\ e_dst e = d /\
+            forall y, In y t -> e_dst y = d -> sle e y.
+Proof. exact lookup_exact_best. Qed.
+Print Assumptions C11_lookup_exact_best.
+
+(* Binary search returns the insertion point: adding keeps the table sorted. *)
+Theorem C11_add_route_sorted : forall cfg now t e0 t' b,
+  sorted t -> tpwf t -> (length (e_path e0) <= 255)%nat ->
+  add_route cfg now t e0 = Ok (t', b) -> sorted t' /\ tpwf t'.
+Proof. exact add_route_sorted. Qed.
+Print Assumptions C11_add_route_sorted.
+
+(* 'not added': the destination already has a route, or it is a new gossip destination refused
+   because its routing prefix is over the limit. *)
+Theorem C11_not_added_has_route_or_full : forall cfg now t e0 t',
+  sorted t -> tpwf t -> add_route cfg now t e0 = Ok (t', false) ->
+  (exists x, In x t /\ e_dst x = e_dst e0) \/
+  (forall x, In x t -> e_dst x <> e_dst e0) /\ e_source e0 = src_gossip.
+Proof. exact not_added_has_route_or_full. Qed.
+Print Assumptions C11_not_added_has_route_or_full.
